@@ -24,7 +24,7 @@ RULE = ('a real EventMgr on a temp root and the in-memory ZooKeeper holding /pla
         '(3) service loop: the real EventMgr.run() with its presence DataWatch and placement ChildrenWatch; time.sleep '
         '(the heartbeat) applies the next scripted change - instances placed (JSON or shared YAML manifest), evicted one '
         'by one down to an empty node, presence lost / regained, start with stale files and nothing placed, a connection '
-        'loss while a watch-triggered synchronisation reads a manifest - and after every change the cache must mirror the '
+        'loss while a watch-triggered synchronisation reads a manifest, a placement node the master takes away just before the agent reads it and puts back before the agent\'s next request - and after every change the cache must mirror the '
         'placement. Watch notifications are delivered on a separate thread (as kazoo does); os._exit is intercepted as '
         'the death of the process, after which a new agent is started on a new session (the supervisor); a '
         'service that exits four times in a row before reaching a heartbeat is checked as it stands. Every other shard runs under the C locale without '
@@ -110,7 +110,28 @@ def service_loop_case(ctx, idx, rng):
         def fake_exit(code):
             raise _ProcessExit(code)
 
+        flick = {'armed': False, 'gone': None}
+
         def on_op(client, op, path):
+            if client is current['zk'] and flick['gone'] is not None:
+                # ... and puts it back before the agent's next request reaches ZooKeeper (e.g. the re-read of the
+                # children the removal triggered): the next listing names the instance again, now readable
+                a_, data_ = flick['gone']
+                flick['gone'] = None
+                zkutils.put(adm, z.path.placement(host, a_), data_)
+                placed[a_] = flick.pop('exp')
+                log.append(('placement-node-back', a_))
+            if flick['armed'] and client is current['zk'] and op == 'get' and path.startswith(z.path.placement(host) + '/'):
+                # the master takes the placement node of a listed instance away just before the agent reads it
+                # (nothing can be cached for it) ...
+                flick['armed'] = False
+                a_ = path.rsplit('/', 1)[1]
+                if a_ in placed and adm.exists(path):
+                    flick['gone'] = (a_, zkutils.get(adm, path))
+                    flick['exp'] = placed.pop(a_)
+                    adm.delete(path)
+                    log.append(('placement-node-gone-before-read', a_))
+                    ctx.count('service_loop_placement_flickered_during_sync')
             if fault[0] and client is current['zk'] and op == 'get' and path.startswith(z.SCHEDULED + '/'):
                 fault[0] = False
                 ctx.count('service_loop_connection_loss_injected')
@@ -213,7 +234,17 @@ def service_loop_case(ctx, idx, rng):
                     log.append(('placement-node',))
                     pump()
                 return
-            op = rng.choice(['place', 'place', 'place2', 'evict', 'evict', 'evict-all', 'presence', 'fault'])
+            op = rng.choice(['place', 'place', 'place2', 'evict', 'evict', 'evict-all', 'presence', 'fault', 'flicker'])
+            if op == 'flicker':
+                flick['armed'] = True
+                place()
+                flick['armed'] = False
+                if flick['gone'] is not None:
+                    # the agent asked nothing more: the master puts the node back anyway
+                    on_op(current['zk'], 'noop', '/')
+                    pump()
+                check('flicker')
+                return
             if op == 'fault':
                 # the connection drops while a synchronisation triggered by a placement event reads a manifest:
                 # the callback fails, the process exits, its supervisor restarts it and the restart synchronises
